@@ -33,6 +33,8 @@ import (
 	"sync"
 	"time"
 
+	metav1 "k8s.io/apimachinery/pkg/apis/meta/v1"
+
 	"gxverif/hx"
 	"gxverif/lockset"
 	"gxverif/total"
@@ -357,6 +359,16 @@ func genCase(r *rand.Rand, surface, cniPath string) job {
 			j.input, _ = total.Mutate(r, j.input, total.ConfDomain)
 		}
 		return j
+	case "keyedlocks":
+		// deployment pods with a reserving policy / a pool (they take the pod lock and then the deployment / pool lock)
+		p := total.GenValidPod(r)
+		p.Name = fmt.Sprintf("dp-rs1-x%d", r.Intn(20))
+		p.OwnerReferences = []metav1.OwnerReference{{Kind: "ReplicaSet", Name: "dp-rs1"}}
+		p.Annotations = map[string]string{total.PolicyAnn: pickS(r, []string{"immutable", "never"})}
+		if r.Intn(3) == 0 {
+			p.Annotations[total.PoolAnn] = pickS(r, []string{"pool1", "pool2"})
+		}
+		return job{surface: surface, input: total.PodJSON(p), tag: "typed-valid"}
 	case "filter", "bind", "unbind", "podevent", "syncpodip", "resync", "cnipod":
 		return podCase()
 	case "listips":
@@ -493,6 +505,8 @@ func systematic(surface string) []job {
 func budget(e *hx.Env, surface string) int {
 	n := e.N(2000, 200000)
 	switch surface {
+	case "keyedlocks":
+		return n / 40
 	case "staticconf", "cnipod", "resync":
 		return n / 10
 	case "cni", "policy":
@@ -725,7 +739,7 @@ func run(e *hx.Env) *hx.Report {
 // lockTablePart: the regenerated lock-balance table (Lean definitions, through gxdrv_lockset): an acquisition that is
 // not released exactly once on every path is a violation of "do not keep a lock held" by itself.
 func lockTablePart(e *hx.Env, r *hx.Report) {
-	out, err := e.RunDriver("lockset", []string{"unbalanced", "reentrant"})
+	out, err := e.RunDriver("lockset", []string{"unbalanced", "reentrant", "nestings"})
 	if err != nil {
 		r.Disagree = append(r.Disagree, hx.Disagreement{Where: "lockset driver", Impl: "-", Model: err.Error(),
 			Replay: e.WriteReplay("C18", "locks", "driver", []string{err.Error()}, nil)})
@@ -740,6 +754,17 @@ func lockTablePart(e *hx.Env, r *hx.Report) {
 				What:   "call made while holding a lock to a function that acquires it again (self deadlock; for a read lock as soon as a writer queues between the two RLocks): " + sig,
 				Replay: e.WriteReplay("C18", "locks", sanitize(sig), []string{"gxdrv_lockset op `reentrant` lists " + sig}, []string{"locktable"})})
 		}
+	}
+	r.Extra["keyed_lock_nestings"] = out[2]
+	for _, sig := range strings.Fields(out[2]) {
+		if strings.HasPrefix(sig, "nested:") {
+			r.Hit("locktable:nesting-distinct-pools")
+			continue
+		}
+		r.Hit("locktable:nesting-bad")
+		r.Violations = append(r.Violations, hx.Violation{Signature: sig,
+			What:   "keyed locks nested inside ONE hashed mutex table (two keys may be the same mutex: self deadlock for colliding pod names) or taken in both orders: " + sig,
+			Replay: e.WriteReplay("C18", "locks", sanitize(sig), []string{"gxdrv_lockset op `nestings` lists " + sig}, []string{"locktable"})})
 	}
 	if out[0] == "-" {
 		r.Hit("locktable:balanced")
